@@ -54,7 +54,30 @@ func TestC13(t *testing.T) {
 		if rapid.Bool().Draw(t, "hostilenames") {
 			base = renameCols(t, base, hostileLegalNames)
 		}
-		d := hx.GenDerived(t, base, 4)
+		steps := 4
+		if hx.Rarely(t, 150, "fullenum") {
+			// an enum column that uses the full range: 255 (or 254) distinct values, declared or derived, no nulls
+			nv := rapid.SampledFrom([]int{255, 255, 254}).Draw(t, "fullenumvalues")
+			n := nv + rapid.IntRange(0, 40).Draw(t, "fullenumextra")
+			rng := hx.SplitMix(rapid.Uint64().Draw(t, "fullenumseed"))
+			vals := make([]string, nv)
+			for i := range vals {
+				vals[i] = fmt.Sprintf("v%03d", (i*101)%nv)
+			}
+			e := hx.Col{Name: "efull", Kind: hx.KEnum, S: make([]*string, n)}
+			for r := range e.S {
+				k := r
+				if r >= nv {
+					k = rng.Intn(nv)
+				}
+				e.S[r] = hx.Sp(vals[k])
+			}
+			if rapid.Bool().Draw(t, "fullenumdeclared") {
+				e.Enum = vals
+			}
+			base, steps = hx.Table{Cols: []hx.Col{e, {Name: "k", Kind: hx.KInt, I: hx.Iota(n)}}}, 2
+		}
+		d := hx.GenDerived(t, base, steps)
 		in := d.Input(t)
 		header := rapid.IntRange(0, 3).Draw(t, "header") > 0
 		order := in.Names()
